@@ -184,7 +184,7 @@ func TestVerifC16(t *testing.T) {
 	relations := []string{"equal", "behind", "ahead", "diverged"}
 	k := 0
 	for _, rel := range relations {
-		for _, how := range []string{"source_dies", "source_lags", "config_changes", "source_offline"} {
+		for _, how := range []string{"source_dies", "source_lags", "config_changes", "source_offline", "source_returns_behind"} {
 			for _, pol := range []string{"flow", "frozen", "flow+race"} {
 				// "+race": right before mysync stops the cascade replica, the master commits and the replica gets the
 				// transaction through its CURRENT source while the chosen new source does not have it yet
@@ -253,9 +253,26 @@ func TestVerifC16(t *testing.T) {
 						s.lastSrcC1 = c.Src
 						s.c1WasRepl = c.IO == "Yes" && c.SQL
 						s.W.Unlock()
+						if how == "source_returns_behind" && round >= 3 {
+							// the workload goes on while the source is away and after it is back: the cascade replica, parked on
+							// the master, keeps up
+							s.W.ClientCommit("h1")
+							s.W.Saturate()
+						}
+						if how == "source_returns_behind" && round == 7 {
+							// the configured source is back after its downtime: it looks healthy (threads running, no lag
+							// reported) but has not fetched what the cascade replica got from the master meanwhile
+							s.W.Restart("h2", false)
+							s.W.Lock()
+							x := s.W.Hosts["h2"]
+							x.Offline, x.Stalled, x.Lag, x.IO, x.SQL = false, true, 0, "Yes", true
+							s.W.Unlock()
+							s.Z.Heal("h2")
+							s.startInstance("h2")
+						}
 						if round == 2 {
 							switch how {
-							case "source_dies":
+							case "source_dies", "source_returns_behind":
 								s.W.Crash("h2")
 								s.kill("h2")
 							case "source_lags":
